@@ -293,14 +293,14 @@ def problems(d, distinct=True):
 # Weighted token cost (COST): an entry block 1, a @string/@preamble/@comment block 2, a free-text comment 1 + its atoms,
 # the comma after an entry key 1, each value piece 1, a trailing comma 1, each atom of inner text 1 or 2 (see the
 # alphabets; a nested group is 1 + its content), each non-empty whitespace slot 2 (3 units, 2 for hs), a
-# non-default spelling of the type/keyword 2.  Keys are assigned by position (k0,k1../s0,s1../t,u,v..) and are free.
+# non-default spelling of the type/keyword 2.  Keys are assigned by position (Kk0,Kk1.. / Ss0,Ss1.. / Ta,Ub,Vc..; mixed case on purpose) and are free.
 
 E_WS = [" ", "\n", "\r\n"]
 E_HS = [" ", "\t"]
 E_ATOMS = {"v": {1: ["a", ","], 2: ["=", "@", "\n", "\\{", "\\}", "\\\""]},     # field / string values ('"' costs 1 where legal)
            "b": {1: ["a"], 2: ["@", "\n", "\\}"]}}                                  # @preamble / @comment bodies
 E_FREE = {1: ["x", "{", "}"], 2: ["%", '"', ",", "=", "@"]}                 # free-text atoms by cost
-E_FKEYS = "tuvwxyz"
+E_FKEYS = ["Ta", "Ub", "Vc", "Wd", "Xe", "Yf", "Zg"]
 COST = {"entry": 1, "string": 2, "preamble": 2, "ecomment": 2, "icomment": 1, "comma": 1, "tcomma": 1, "ws": 2, "var": 2}
 
 
@@ -472,7 +472,7 @@ def _blocks(n, i, allow_f4, prev_kind):
     if m >= 0:
         # entry without comma
         for lead, typ, hs, w0, w1 in _prod(m, [_ws, _opt("a", ["Ab"]), _hs, _ws, _ws]):
-            yield _put({"t": "entry", "type": typ, "key": "k%d" % i, "comma": False}, lead=lead, hs=hs, w0=w0, w1=w1)
+            yield _put({"t": "entry", "type": typ, "key": "Kk%d" % i, "comma": False}, lead=lead, hs=hs, w0=w0, w1=w1)
         # entry with comma and fields
         m -= COST["comma"]
         for fc in range(0, m + 1):
@@ -481,7 +481,7 @@ def _blocks(n, i, allow_f4, prev_kind):
                 continue
             for lead, typ, hs, w0, w1, w2 in _prod(m - fc, [_ws, _opt("a", ["Ab"]), _hs, _ws, _ws, _ws]):
                 for fl in flists:
-                    b = _put({"t": "entry", "type": typ, "key": "k%d" % i}, lead=lead, hs=hs, w0=w0, w1=w1, w2=w2)
+                    b = _put({"t": "entry", "type": typ, "key": "Kk%d" % i}, lead=lead, hs=hs, w0=w0, w1=w1, w2=w2)
                     if fl:
                         b["fields"] = fl
                     yield b
@@ -491,7 +491,7 @@ def _blocks(n, i, allow_f4, prev_kind):
         vals = _values(vc, allow_f4)
         for lead, kw, hs, w0, e1, e2, w3 in _prod(m - vc, [_ws, _kw("string"), _hs, _ws, _ws, _ws, _ws]):
             for pieces, cws in vals:
-                b = _put({"t": "string", "key": "s%d" % i, "pieces": pieces}, lead=lead, hs=hs, w0=w0, e1=e1, e2=e2, w3=w3)
+                b = _put({"t": "string", "key": "Ss%d" % i, "pieces": pieces}, lead=lead, hs=hs, w0=w0, e1=e1, e2=e2, w3=w3)
                 if kw != "string":
                     b["kw"] = kw
                 if cws:
